@@ -42,6 +42,18 @@ type Checker struct {
 	// Keys, if set, collects the masking keys of the client-side frames by the
 	// route that produced them (see KeyStats).
 	Keys *KeyStats
+	// Faults must be set when the destination has a fault plan (tx.Rec.FailAt):
+	// the checker then keeps the whole wire and accepted-byte streams and, from
+	// the call during which the destination fails, checks the accounting that
+	// still makes sense (see faultStep) instead of the frame discipline, which
+	// is C16's subject.
+	Faults bool
+	// Failed is set once the destination fault has happened.
+	Failed bool
+	wire        []byte // everything the destination accepted (Faults only)
+	done        []byte // accepted bytes of the completed messages (Faults only)
+	allowed     []byte // accepted before the failing call ++ what the failing call offered
+	errReported bool   // an earlier call returned a destination error
 	// MinSize, if > 0, is a payload capacity the configuration guarantees (the
 	// documented buffer size minus the largest header): data up to it "fits the
 	// buffer" whatever Size() reports. Buffers never shrink, so it holds for the
@@ -100,6 +112,12 @@ func (c *Checker) NonTrivial() bool {
 // Step validates one executed step. It returns a description of the
 // violation, or nil.
 func (c *Checker) Step(a Action, r Result) error {
+	if c.Faults {
+		c.wire = append(c.wire, r.Out...)
+		if r.DestFailed || c.Failed {
+			return c.faultStep(a, r)
+		}
+	}
 	frames, rest, perr := ref.ParseFrames(r.Out)
 	if len(rest) > 0 {
 		return fmt.Errorf("%s: the %d bytes sent during the call are not whole frames: %v (after %d frames, %d bytes left over)", a.Kind, len(r.Out), perr, len(frames), len(rest))
@@ -245,6 +263,9 @@ func firstDiff(a, b []byte) int {
 
 func (c *Checker) finish(r Result) error {
 	defer func() {
+		if c.Faults {
+			c.done = append(c.done, c.acc...)
+		}
 		c.msg, c.sent, c.acc, c.wcalls, c.plain, c.fits = nil, 0, nil, 0, true, true
 		c.setters, c.rfErrs = 0, 0
 	}()
@@ -361,3 +382,63 @@ func (k *KeyStats) Check(min int) (violations []string, counts map[string]int) {
 
 // Reset forgets everything observed.
 func (k *KeyStats) Reset() { k.routes = nil }
+
+// faultStep checks a call during or after the destination's fault. What still
+// has to hold:
+//
+//	(a) a returned byte count is between 0 and the number of bytes offered;
+//	(b) once a call has returned the destination's error the writer accepts no
+//	    more data: Write and WriteThrough return 0 and an error ("no more data
+//	    will be accepted and all subsequent writes will return the error") and
+//	    Buffered() does not grow;
+//	(c) the payload bytes that reached the destination (whole frames, and the
+//	    part of a frame cut by the fault, unmasked with its key) are a prefix of
+//	    the bytes reported accepted before the failing call followed by the
+//	    bytes that call offered, and nothing more is sent afterwards.
+//
+// What the failing call itself returns beyond (a) is left open (the unchanged
+// writer counts bytes it had copied into the buffer before the failed flush,
+// and reports 0 for a failed direct write).
+func (c *Checker) faultStep(a Action, r Result) error {
+	first := !c.Failed
+	c.Failed = true
+	offers := a.Kind == KWrite || a.Kind == KThrough || a.Kind == KReadFrom
+	if offers && (r.N < 0 || r.N > int64(a.Len)) {
+		return fmt.Errorf("%s of %d bytes returned n=%d", a.Kind, a.Len, r.N)
+	}
+	if c.errReported && (a.Kind == KWrite || a.Kind == KThrough) {
+		if r.N != 0 || r.Err == "" {
+			return fmt.Errorf("%s of %d bytes on a writer that had already returned a destination error returned n=%d err=%q; want 0 and the error", a.Kind, a.Len, r.N, r.Err)
+		}
+		if r.After.Buffered > r.Before.Buffered {
+			return fmt.Errorf("%s on a writer that had already returned a destination error buffered %d more bytes (Buffered() %d -> %d)", a.Kind, r.After.Buffered-r.Before.Buffered, r.Before.Buffered, r.After.Buffered)
+		}
+	}
+	if first {
+		c.allowed = append(append(append([]byte(nil), c.done...), c.acc...), a.Data()...)
+	} else if len(r.Out) > 0 && c.errReported {
+		return fmt.Errorf("%s sent %d more bytes although the writer had already returned a destination error", a.Kind, len(r.Out))
+	}
+	switch r.Err {
+	case "", "notempty", "source", "noprogress":
+	default:
+		c.errReported = true
+	}
+	// (c)
+	frames, rest, _ := ref.ParseFrames(c.wire)
+	var sent []byte
+	for _, f := range frames {
+		sent = append(sent, f.Payload...)
+	}
+	if v, h, n := ref.DecodeHeader(rest); v == ref.OK && len(rest) > n {
+		part := rest[n:]
+		if h.Masked {
+			part = ref.Mask(part, h.Mask, 0)
+		}
+		sent = append(sent, part...)
+	}
+	if len(sent) > len(c.allowed) || !bytes.Equal(sent, c.allowed[:len(sent)]) {
+		return fmt.Errorf("%s: the %d payload bytes that reached the destination are not a prefix of the %d bytes accepted before / offered by the failing call (first difference at byte %d)", a.Kind, len(sent), len(c.allowed), firstDiff(sent, c.allowed))
+	}
+	return nil
+}
